@@ -32,6 +32,7 @@ class Fact:
     detail: str = ''
     key: str = ''
     facts: Any = None
+    lost: bool = False   # the analysis lost track of a value this fact is about: undecided, never a violation
 
 
 class NQ:
@@ -379,6 +380,28 @@ class Solver:
     def __repr__(self):
         return f'{self.kind}({self.H!r})'
 
+    # configuration of the third-party decoder that makes decode() consume an internal random stream
+    RANDOM_CONFIG = ('random_schedule_seed', 'random_serial_schedule')
+    KNOWN_CONFIG = ('pcm', 'error_rate', 'error_channel', 'channel_probs', 'max_iter', 'bp_method', 'ms_scaling_factor',
+                    'schedule', 'osd_method', 'osd_order', 'input_vector_type', 'serial_schedule_order')
+
+    def configure(self, name, value, where):
+        if name in self.RANDOM_CONFIG:
+            if value is TOP or not isinstance(value, (int, bool)):
+                raise AnalysisError('R06.4', where, f'ldpc option {name}={value!r}: value not tracked')
+            if value:
+                self.random = (name, value)
+            return
+        if name == 'schedule' and value not in ('parallel', 'serial'):
+            raise AnalysisError('R06.4', where, f'ldpc option schedule={value!r} not modelled')
+        if name not in self.KNOWN_CONFIG:
+            raise AnalysisError('R06.4', where, f'ldpc option {name}={value!r} not modelled')
+
+    def pqv_setattr(self, name, value):
+        if self.kind != 'BpOsdDecoder':
+            raise AttributeError(name)
+        self.configure(name, value, 'attribute store on the ldpc decoder')
+
     def pqv_getattr(self, name):
         if name == 'decode':
             return _Callable(self._decode)
@@ -503,6 +526,8 @@ class SectorHooks(Hooks):
                 # not satisfy the syndrome (the "complete decoder" clause rests on the OSD stage)
                 s.complete = last in ('BpOsdDecoder', 'bposd_decoder')
                 s.ctor = last
+                for k_, v_ in kwargs.items():
+                    s.configure(k_, v_, site_of(env.module, node))
                 self.log.append(('construct', s, None))
                 return s
             n = np_name(func)
@@ -558,6 +583,15 @@ class SectorHooks(Hooks):
             return args[1] if args[0].pqv_truth() else args[2]
         if n in ('hstack', 'concatenate') and args and isinstance(args[0], (list, tuple)) and len(args[0]) == 2:
             a, b = args[0]
+            zero = lambda v: isinstance(v, ProbCell) and isinstance(v.value, int) and v.value == 0
+            if (zero(a) or zero(b)) and all(isinstance(v, Corr) or zero(v) for v in (a, b)):
+                # a half that is a constant zero vector of length n: that half is not filled
+                f = Full(None if zero(a) else a, None if zero(b) else b)
+                if isinstance(a, Corr) and a.sector != 'X':
+                    f.bad.append(f'first half of the returned vector is the {a.sector}-correction')
+                if isinstance(b, Corr) and b.sector != 'Z':
+                    f.bad.append(f'second half of the returned vector is the {b.sector}-correction')
+                return f
             if isinstance(a, Corr) and isinstance(b, Corr):
                 f = Full(a, b)
                 if a.sector != 'X':
@@ -568,6 +602,18 @@ class SectorHooks(Hooks):
             if isinstance(a, (Event, Bad)) and isinstance(b, (Event, Bad)):
                 return Prior2(a, b)
             return TOP
+        # probabilities lie in [0, 1]: clamping to that interval is the identity
+        if n in ('maximum', 'fmax') and len(args) == 2 and not kwargs:
+            for x, y in ((args[0], args[1]), (args[1], args[0])):
+                if isinstance(x, (Event, Ratio)) and isinstance(y, (int, float)) and not isinstance(y, bool) and y <= 0:
+                    return x
+        if n in ('minimum', 'fmin') and len(args) == 2 and not kwargs:
+            for x, y in ((args[0], args[1]), (args[1], args[0])):
+                if isinstance(x, (Event, Ratio)) and isinstance(y, (int, float)) and not isinstance(y, bool) and y >= 1:
+                    return x
+        if n == 'clip' and len(args) == 3 and not kwargs and isinstance(args[0], (Event, Ratio)) \
+                and all(isinstance(y, (int, float)) and not isinstance(y, bool) for y in args[1:]) and args[1] <= 0 and args[2] >= 1:
+            return args[0]
         r = elementwise(n, args, kwargs)
         if r is not NOT_HANDLED:
             return r
@@ -679,6 +725,8 @@ def analyse_get_weights(model: Model) -> List[Fact]:
                           f'get_weights()[{i}] = -log(P{{{sector} flip}}/(1-P{{{sector} flip}}))',
                           ok and got == want, f'got {got!r}, expected {want!r}',
                           key=f'BaseErrorModel.get_weights|{sector}', facts=repr(got)))
+        if 'TOP' in repr(got):
+            facts[-1].lost = True          # a value the analysis lost is undecided, never a violation
     return facts
 
 
@@ -717,6 +765,14 @@ def analyse(model: Model, only=None) -> List[Fact]:
     return facts
 
 
+def raise_if_lost(facts) -> None:
+    """Called by a property module once the facts it uses have been reported: any of them undecided makes the check
+    undecided (violations reported before take precedence)."""
+    for f in facts:
+        if f.lost:
+            raise AnalysisError('R05.3', f.site, f'{f.what}: value not tracked by the analysis ({f.detail})')
+
+
 def _judge(name, cfg, site, v, log, n_init, kw) -> List[Fact]:
     out: List[Fact] = []
     solvers = [e[1] for e in log if e[0] == 'construct']
@@ -734,6 +790,14 @@ def _judge(name, cfg, site, v, log, n_init, kw) -> List[Fact]:
                             f'constructed as ldpc.{getattr(s, "ctor", "?")}: plain BP returns its last iterate when it does not '
                             f'converge, which need not reproduce the syndrome', key=f'{name}|{cfg}|complete[{H!r}]',
                             facts=getattr(s, 'ctor', None)))
+        if s.kind == 'BpOsdDecoder':
+            rnd = getattr(s, 'random', None)
+            out.append(Fact('deterministic', name, cfg, site, f'{name} [{cfg}]: the ldpc decoder on {H!r} is configured without a '
+                                                              f'random schedule (decode is a function of the syndrome)',
+                            rnd is None, f'{rnd[0] if rnd else ""}={rnd[1] if rnd else ""!r} switches on the random serial '
+                            f'schedule: its generator lives in the long-lived ldpc object and advances on every decode, so the '
+                            f'correction for a syndrome depends on the calls made before',
+                            key=f'{name}|{cfg}|deterministic[{H!r}]', facts=repr(rnd)))
         if s.kind == 'Matching' and okH and H.rows in ('X', 'Z'):
             want = expected_weight(H.detects)
             given_weights = 'weights' in kw
@@ -849,10 +913,11 @@ def _judge(name, cfg, site, v, log, n_init, kw) -> List[Fact]:
         detail = '; '.join(v.bad)
     out.append(Fact('output', name, cfg, site, f'{name} [{cfg}]: decode returns [X-correction | Z-correction] of length 2n',
                     ok, detail, key=f'{name}|{cfg}|output', facts=repr(v)))
+    # a value the interpretation lost track of is not evidence of anything: undecided, never a violation (and an
+    # undecided fact on one path does not hide a violation established on another: see analyse)
     for f in out:
-        # a value the interpretation lost track of is not evidence of anything: undecided, never a violation
         if not f.ok and 'TOP' in f.detail:
-            raise AnalysisError('R05.3', site, f'{f.what}: value not tracked by the analysis ({f.detail})')
+            f.lost = True
     if isinstance(v, Full):
         # which halves must be present
         et = kw.get('error_type')
